@@ -1691,6 +1691,7 @@ fn run_f(case: &FCase) -> Outcome {
             }
         }
         out.failures.clear();
+        out.label("survey_mode");
     }
     // non-trivial: some filter kept an item and some filter rejected one
     out.nontrivial = out.labels.iter().any(|l| l.ends_with(":m")) && out.labels.iter().any(|l| l.ends_with(":n"));
@@ -1777,6 +1778,9 @@ impl Property for C08 {
         let q = get("case:query");
         if q > 0 && get("nontrivial") * 100 < q * 30 {
             v.push(format!("only {} of {} query cases are non-trivial", get("nontrivial"), q));
+        }
+        if get("survey_mode") > 0 {
+            v.push("C08_SURVEY is set: failures of filter cases were diverted to that file, this run decides nothing".into());
         }
         // every public filter method must have been seen keeping an item and rejecting an item
         let f = get("case:filter");
